@@ -14,6 +14,8 @@ import (
 	"strings"
 	"time"
 
+	commonmodels "github.com/lindb/common/models"
+
 	"github.com/lindb/lindb/flow"
 	"github.com/lindb/lindb/internal/concurrent"
 	"github.com/lindb/lindb/internal/linmetric"
@@ -529,9 +531,26 @@ func runPipeline(c *core.Ctx, pool concurrent.Pool, root *node, rng *rand.Rand, 
 
 // ---------------------------------------------------------------- the property, evaluated on the implementation
 
-// completedWithErr: the err of the completeStage call that completed n
+// completedWithErr reports whether the completeStage call that completed n carried an error, as
+// the real state machine recorded it in the stage statistics (State/ErrMsg are written in
+// completeStage's critical section). Called when nothing is running any more.
 func (r *runner) completedWithErr(n *node) bool {
-	return n.out == 'e' || (n.async && r.o.threadPanic[n.thread])
+	want := "verif-stage-" + strconv.Itoa(n.id)
+	found, withErr := false, false
+	var walk func(l []*commonmodels.StageStats)
+	walk = func(l []*commonmodels.StageStats) {
+		for _, st := range l {
+			if st.Identifier == want {
+				found, withErr = true, st.ErrMsg != ""
+			}
+			walk(st.Children)
+		}
+	}
+	walk(r.pipe.Stats())
+	if !found {
+		return n.out != 'o'
+	}
+	return withErr
 }
 
 func describe(root *node, used []int) string {
@@ -551,8 +570,9 @@ func (r *runner) oracle(c *core.Ctx, root *node, used []int, witness string) {
 		c.Fail("harness-timeout", what+": "+o.timeout)
 		return
 	}
+	// a fixed witness reports under its own key only the shape it was recorded for
 	key := func(region string) string {
-		if witness != "" {
+		if strings.HasPrefix(witness, "witness-sync-panic") == (region == "no-callback-sync-panic-on-pooled-goroutine") && witness != "" {
 			return witness
 		}
 		return region
@@ -585,10 +605,12 @@ func (r *runner) oracle(c *core.Ctx, root *node, used []int, witness string) {
 			what, o.doneAtCb, o.regAtCb, o.reg))
 	}
 	if o.failedAtCb && !o.cbErr[0] {
-		viaRecover := o.threadPanic[0]
+		// the Dec path fires only at pending == 0, i.e. with every started stage finished; an
+		// earlier callback comes from pipeline.Execute's recover
+		viaRecover := o.doneAtCb < o.regAtCb
 		switch {
 		case viaRecover:
-			c.Fail("error-lost-after-toplevel-panic", what+": a stage panicked on the goroutine of pipeline.Execute, callback argument is nil")
+			c.Fail("error-lost-after-toplevel-panic", what+": the callback fired from pipeline.Execute's recover, its argument is nil")
 		case o.lastDone != nil && !r.completedWithErr(o.lastDone):
 			c.Fail(key("error-lost-last-finisher-ok"), fmt.Sprintf("%s: a stage failed, the stage that completed last (#%d) succeeded, callback argument is nil", what, o.lastDone.id))
 		default:
